@@ -214,7 +214,8 @@ def finish(ctx, explanation, trusted=()):
             out.append('  %s:%s %s in %s: %s  [construct: %s]' % (v['file'], v['line'], v['rule'], v['function'], v['what_fails'], v['construct_key']))
             out.append('VIOLATION property=%s replay=%s' % (ctx.prop, path))
         code = 1
-    if errors:
+    if errors and not new:
+        # (with a violation reported the run already fails: a rule that stopped at the violating construct analysed fewer instances than on the clean tree)
         for e in errors:
             out.append('ANALYSIS-ERROR %s' % e)
         code = 2
@@ -273,6 +274,12 @@ def run(prop, tier, fn, explanation, replay=None):
         fn(ctx)
         return finish(ctx, explanation)
     except AnalysisError as e:
+        # violations established before the analysis lost its footing are still reported (the later rules could not run)
+        if ctx.violations and not ctx.only:
+            ctx.floors = {}
+            ctx.notes.append('analysis stopped early: %s' % e)
+            if finish(ctx, explanation) == 1:
+                return 1
         print('ANALYSIS-ERROR property=%s %s' % (prop, e))
         return 2
     except Exception:
